@@ -3,3 +3,4 @@ pub mod c02;
 pub mod c03;
 pub mod c05;
 pub mod common;
+pub mod c06;
